@@ -1502,7 +1502,12 @@ func (v *VMValue) ComputedExecute(ctx *Context, detail *BufferSpan) *VMValue {
 	}
 
 	if cd.code == nil {
-		_ = vm.Run(cd.Expr)
+		// Parse 会将 NumOpCount 清零，此处需保留调用者累计的算力，否则还原出来的函数/计算值可以无限递归
+		opCount := vm.NumOpCount
+		if err := vm.Parse(cd.Expr); err == nil {
+			vm.NumOpCount = opCount
+			_ = vm.RunAfterParsed()
+		}
 		cd.code = vm.code
 		cd.codeIndex = vm.codeIndex
 	} else {
@@ -1586,7 +1591,12 @@ func (v *VMValue) FuncInvokeRaw(ctx *Context, params []*VMValue, useUpCtxLocal b
 	}
 
 	if cd.code == nil {
-		_ = vm.Run(cd.Expr)
+		// Parse 会将 NumOpCount 清零，此处需保留调用者累计的算力，否则还原出来的函数/计算值可以无限递归
+		opCount := vm.NumOpCount
+		if err := vm.Parse(cd.Expr); err == nil {
+			vm.NumOpCount = opCount
+			_ = vm.RunAfterParsed()
+		}
 		cd.code = vm.code
 		cd.codeIndex = vm.codeIndex
 	} else {
